@@ -11,7 +11,7 @@ import datetime as _dtm
 import re
 
 from crosshair import core
-from crosshair.core import NoTracing, deep_realize, realize
+from crosshair.core import NoTracing, ResumedTracing, deep_realize, realize
 from crosshair.libimpl import builtinslib as _bl
 from crosshair.libimpl import relib as _relib
 from crosshair.libimpl.builtinslib import LazyIntSymbolicStr
@@ -157,26 +157,25 @@ def _ignorecase_mask(cp):
     return mask
 
 
-_orig_str = core._PATCH_REGISTRATIONS.get(str)
-
-
 def sym_str(*a, **kw):
-    """str(exc) for an exception whose only argument is a symbolic str returns that string
-    (BaseException.__str__ is C code and would realise it)."""
-    if len(a) == 1 and not kw:
-        with NoTracing():
+    """str(): as CrossHair's own model, plus: str(exc) of an exception whose only argument is a
+    symbolic str returns that string (BaseException.__str__ is C code and would realise it)."""
+    with NoTracing():
+        if len(a) == 1 and not kw:
             obj = a[0]
-            hit = (isinstance(obj, BaseException) and len(obj.args) == 1
-                   and isinstance(obj.args[0], _bl.AnySymbolicStr)
-                   and type(obj).__str__ is BaseException.__str__)
-        if hit:
-            return obj.args[0]
-    return _orig_str(*a, **kw)
+            if isinstance(obj, _bl.AnySymbolicStr):
+                return obj
+            if (isinstance(obj, BaseException) and len(obj.args) == 1
+                    and isinstance(obj.args[0], _bl.AnySymbolicStr)
+                    and type(obj).__str__ is BaseException.__str__):
+                return obj.args[0]
+            with ResumedTracing():
+                return _bl.invoke_dunder(obj, "__str__")
+    return str(*a, **kw)
 
 
 def install():
-    if _orig_str is not None:
-        core._PATCH_REGISTRATIONS[str] = sym_str
+    core._PATCH_REGISTRATIONS[str] = sym_str
     _relib.unicode_ignorecase_mask = _ignorecase_mask
     _bl.AnySymbolicStr.__repr__ = _sym_str_repr
     core._PATCH_REGISTRATIONS[str.__mod__] = sym_percent
